@@ -432,6 +432,63 @@ func c08NoCache(c *Ctx) {
 		}
 		r.Check(len(bad) == 0, "C08/R2", "no-cached-instance:"+tn[1], tn[1]+" keeps no FSM instance between messages", "", "fields "+strings.Join(bad, ", ")+": a cached instance makes the state depend on the process history instead of the persisted dump")
 	}
+	// … nor any other copy of durable data: the services and repositories between the handler and the state DB have no
+	// container-typed field (map/slice) that is written after construction. A copy kept in memory makes what a node does
+	// with a message depend on what this process did before (and survives a state reset), instead of on the stored state.
+	for _, tn := range [][2]string{{pkgNode, "BaseNodeService"}, {"client/services/fsmservice", "FSM"}, {"client/repositories/operation", "BaseOperationRepo"},
+		{"client/repositories/signature", "BaseSignatureRepo"}, {"client/services/operation", "BaseOperationService"}, {"client/services/signature", "BaseSignatureService"}} {
+		t := c.lookupType("C08/R2", tn[0], tn[1])
+		if t == nil {
+			continue
+		}
+		st, isStruct := t.Underlying().(*types.Struct)
+		if !isStruct {
+			continue
+		}
+		var bad []string
+		for i := 0; i < st.NumFields(); i++ {
+			f := st.Field(i)
+			switch f.Type().Underlying().(type) {
+			case *types.Map, *types.Slice:
+			default:
+				continue
+			}
+			// written anywhere but in a constructor?
+			var writers []string
+			for fn := range c.P.AllFuncs() {
+				if !load.InModule(fn) || c.isTestFunc(fn) || fn.Synthetic != "" || strings.HasPrefix(fn.Name(), "New") {
+					continue
+				}
+				ssax.Instrs(fn, func(in ssa.Instruction) {
+					fa, ok := in.(*ssa.FieldAddr)
+					if !ok || ssax.FieldOf(fa) != f || fa.Referrers() == nil {
+						return
+					}
+					for _, u := range *fa.Referrers() {
+						switch x := u.(type) {
+						case *ssa.Store:
+							if x.Addr == ssa.Value(fa) {
+								writers = append(writers, shortFn(fn))
+							}
+						case *ssa.UnOp:
+							if x.Referrers() != nil {
+								for _, uu := range *x.Referrers() {
+									if mu, isMU := uu.(*ssa.MapUpdate); isMU && mu.Map == ssa.Value(x) {
+										writers = append(writers, shortFn(fn))
+									}
+								}
+							}
+						}
+					}
+				})
+			}
+			if len(writers) > 0 {
+				sort.Strings(writers)
+				bad = append(bad, f.Name()+" "+f.Type().String()+" (written by "+strings.Join(uniqStr(writers), ", ")+")")
+			}
+		}
+		r.Check(len(bad) == 0, "C08/R2", "no-cached-state:"+tn[1], tn[1]+" keeps no in-memory copy of durable data", "", "fields "+strings.Join(bad, "; ")+": the node's reaction to a message would depend on this process's history (and on a copy that a state reset does not replace) instead of the stored state")
+	}
 	if fn := c.Fn("C08/R2", pkgNode, "BaseNodeService", "processMessage"); fn != nil {
 		// every Do receiver derives from GetFSMInstance or FromDump
 		bad := ""
